@@ -57,7 +57,14 @@ func (g *ogen) intExpr(d int) *onode {
 		}
 		return xs
 	}
-	switch g.r.Intn(23) {
+	switch g.r.Intn(27) {
+	case 23, 24, 25:
+		// any strict binary operator: left operand, then right operand (its own value is made irrelevant by gv0)
+		ops := []string{"-", "*", "/", "&", "|", "<<", ">>", "<", "<=", ">", ">=", "==", "!=", "in"}
+		return &onode{kind: "binop", fn: ops[g.r.Intn(len(ops))], kids: ints(2)}
+	case 26:
+		// the address of an element handed to a Go function: container and index are evaluated once
+		return &onode{kind: "addrarg", kids: ints(2)}
 	case 0, 1:
 		return &onode{kind: "probe", kids: []*onode{g.intExpr(d)}}
 	case 2, 3:
@@ -172,6 +179,14 @@ func (n *onode) src() string {
 		return n.fn + "(" + joinKids(n.kids) + ")"
 	case "spread", "gospread", "govspread":
 		return n.fn + "([" + joinKids(n.kids) + "]...)"
+	case "binop":
+		r := n.kids[1].src()
+		if n.fn == "in" {
+			r = "[" + r + "]"
+		}
+		return "gv0(" + n.kids[0].src() + " " + n.fn + " " + r + ")"
+	case "addrarg":
+		return "gv0(id(&[" + n.kids[0].src() + ", 7][0 * " + n.kids[1].src() + "]))"
 	case "failconv":
 		return "typed2(" + n.kids[0].src() + ", \"notanint\")"
 	case "vtyped":
@@ -304,6 +319,11 @@ func (n *onode) ref(tr *[]string) (interface{}, bool) {
 			return nil, true
 		}
 		return int64(len(vs)), false
+	case "binop", "addrarg":
+		if _, bad := evalAll(n.kids); bad {
+			return nil, true
+		}
+		return int64(1), false
 	case "spread":
 		// f([a, b, ...]...) : the list is evaluated, then it must supply at least the parameters
 		vs, bad := evalAll(n.kids)
